@@ -944,6 +944,176 @@ Proof.
 Qed.
 
 (* ================================================================== *)
+(* 4b'. fmod is exact: x - trunc(x/y)*y, no rounding; fmin/fmax ties; floor *)
+Local Notation fexp := (SpecFloat.fexp 53 1024).
+
+Lemma trunc_core (ax ay : Z) (b : R) (nx ny : bool) : 0 <= ax -> 0 < ay -> (0 < b)%R ->
+  (cond_Ropp nx (IZR ax * b)
+   - IZR (Ztrunc (cond_Ropp nx (IZR ax * b) / cond_Ropp ny (IZR ay * b))) * cond_Ropp ny (IZR ay * b)
+   = cond_Ropp nx (IZR (ax mod ay) * b))%R.
+Proof.
+  intros Hax Hay Hb.
+  assert (Hay' : (0 < IZR ay)%R) by (apply IZR_lt; lia).
+  assert (Hax' : (0 <= IZR ax)%R) by (apply IZR_le; lia).
+  assert (Q : Ztrunc (IZR ax / IZR ay) = ax / ay).
+  { rewrite Ztrunc_floor.
+    - apply Zfloor_div. lia.
+    - apply Rmult_le_pos; [exact Hax'|]. apply Rlt_le, Rinv_0_lt_compat. exact Hay'. }
+  assert (D : (IZR ax * b / (IZR ay * b) = IZR ax / IZR ay)%R) by (field; lra).
+  assert (E : (IZR ax = IZR ay * IZR (ax / ay) + IZR (ax mod ay))%R).
+  { rewrite <- mult_IZR, <- plus_IZR. f_equal. apply Z.div_mod. lia. }
+  destruct nx, ny; cbn [cond_Ropp].
+  - replace (- (IZR ax * b) / - (IZR ay * b))%R with (IZR ax / IZR ay)%R by (rewrite <- D; field; lra).
+    rewrite Q. rewrite E at 1. ring.
+  - replace (- (IZR ax * b) / (IZR ay * b))%R with (- (IZR ax / IZR ay))%R by (rewrite <- D; field; lra).
+    rewrite Ztrunc_opp, Q, opp_IZR. rewrite E at 1. ring.
+  - replace ((IZR ax * b) / - (IZR ay * b))%R with (- (IZR ax / IZR ay))%R by (rewrite <- D; field; lra).
+    rewrite Ztrunc_opp, Q, opp_IZR. rewrite E at 1. ring.
+  - rewrite D, Q. rewrite E at 1. ring.
+Qed.
+
+Lemma fmod_repr (sx : bool) (r e : Z) (w : R) :
+  0 < r -> (w <> 0)%R -> (IZR r * bpow radix2 e <= Rabs w)%R ->
+  (cexp radix2 fexp w <= e)%Z -> (Rabs w < bpow radix2 1024)%R ->
+  let z := F64.of_me (if sx then - r else r) e sx in
+  F64.is_finite z = true /\ B2R z = cond_Ropp sx (IZR r * bpow radix2 e) /\ Bsign z = sx.
+Proof.
+  intros Hr Hw Hle Hc Hmax z.
+  set (m := if sx then - r else r) in *.
+  assert (Em : m = cond_Zopp sx r) by (unfold m; destruct sx; reflexivity).
+  set (v := F2R (Float radix2 m e)).
+  assert (Av : Rabs v = (IZR r * bpow radix2 e)%R).
+  { unfold v. rewrite <- F2R_Zabs. rewrite Em, abs_cond_Zopp. unfold F2R; cbn. rewrite Z.abs_eq by lia. reflexivity. }
+  assert (Pv : (0 < IZR r * bpow radix2 e)%R).
+  { apply Rmult_lt_0_compat; [apply IZR_lt; lia|apply bpow_gt_0]. }
+  assert (Nv : v <> 0%R) by (intros E0; rewrite E0, Rabs_R0 in Av; lra).
+  assert (Gv : generic_format radix2 fexp v).
+  { apply generic_format_F2R. intros _. fold v. unfold cexp.
+    eapply Z.le_trans; [|exact Hc]. unfold cexp.
+    apply (monotone_exp (fexp)). apply mag_le_abs; [exact Nv|rewrite Av; exact Hle]. }
+  pose proof (binary_normalize_correct 53 1024 prec_gt_0_53 prec_lt_emax_53 mode_NE m e sx) as H.
+  cbv zeta in H. fold v in H. rewrite round_generic in H by (auto with typeclass_instances).
+  rewrite Rlt_bool_true in H by (rewrite Av; lra).
+  destruct H as (V & F & S). fold (F64.of_me m e sx) in V, F, S. fold z in V, F, S.
+  assert (Vv : v = cond_Ropp sx (IZR r * bpow radix2 e)).
+  { unfold v. rewrite Em. unfold F2R; cbn [Fnum Fexp]. destruct sx; cbn [cond_Zopp cond_Ropp]; [rewrite opp_IZR; ring|reflexivity]. }
+  split; [exact F|]. split; [rewrite V; exact Vv|].
+  rewrite S, Vv. destruct sx; cbn [cond_Ropp].
+  - rewrite Rcompare_Lt by lra. reflexivity.
+  - rewrite Rcompare_Gt by lra. reflexivity.
+Qed.
+
+Lemma B2R_finite_scaled (s : bool) (m : positive) (e e0 : Z) : e0 <= e ->
+  F2R (Float radix2 (cond_Zopp s (Zpos m)) e) = cond_Ropp s (IZR (Zpos m * 2 ^ (e - e0)) * bpow radix2 e0).
+Proof.
+  intros H. unfold F2R; cbn [Fnum Fexp].
+  rewrite mult_IZR. change (IZR (2 ^ (e - e0))) with (IZR (Zpower radix2 (e - e0))).
+  rewrite IZR_Zpower by lia. rewrite Rmult_assoc, <- bpow_plus. replace (e - e0 + e0) with e by ring.
+  destruct s; cbn [cond_Zopp cond_Ropp]; [rewrite opp_IZR; ring|reflexivity].
+Qed.
+
+Lemma fmod_finite sx mx ex Bx sy my ey By :
+  let x : f64 := B754_finite sx mx ex Bx in
+  let y : f64 := B754_finite sy my ey By in
+  F64.is_finite (F64.fmod x y) = true /\
+  B2R (F64.fmod x y) = (B2R x - IZR (Ztrunc (B2R x / B2R y)) * B2R y)%R /\
+  (Rabs (B2R (F64.fmod x y)) < Rabs (B2R y))%R /\
+  Bsign (F64.fmod x y) = sx.
+Proof.
+  intros x y.
+  set (e := Z.min ex ey).
+  set (ax := Zpos mx * 2 ^ (ex - e)). set (ay := Zpos my * 2 ^ (ey - e)).
+  set (b := bpow radix2 e).
+  assert (Hb : (0 < b)%R) by apply bpow_gt_0.
+  assert (Pax : 0 < ax) by (unfold ax; apply Z.mul_pos_pos; [lia|apply Z.pow_pos_nonneg; lia]).
+  assert (Pay : 0 < ay) by (unfold ay; apply Z.mul_pos_pos; [lia|apply Z.pow_pos_nonneg; lia]).
+  assert (Ex : B2R x = cond_Ropp sx (IZR ax * b)) by (apply B2R_finite_scaled; lia).
+  assert (Ey : B2R y = cond_Ropp sy (IZR ay * b)) by (apply B2R_finite_scaled; lia).
+  pose proof (Z.mod_pos_bound ax ay Pay) as Hr.
+  pose proof (trunc_core ax ay b sx sy (Z.lt_le_incl _ _ Pax) Pay Hb) as T.
+  rewrite <- Ex, <- Ey in T.
+  assert (Ay : Rabs (B2R y) = (IZR ay * b)%R).
+  { rewrite Ey. destruct sy; cbn [cond_Ropp]; [rewrite Rabs_Ropp|]; apply Rabs_pos_eq;
+      apply Rmult_le_pos; try lra; apply IZR_le; lia. }
+  assert (Ax : Rabs (B2R x) = (IZR ax * b)%R).
+  { rewrite Ex. destruct sx; cbn [cond_Ropp]; [rewrite Rabs_Ropp|]; apply Rabs_pos_eq;
+      apply Rmult_le_pos; try lra; apply IZR_le; lia. }
+  assert (Rlt_y : (IZR (ax mod ay) * b < IZR ay * b)%R).
+  { apply Rmult_lt_compat_r; [exact Hb|apply IZR_lt; lia]. }
+  change (F64.fmod x y) with
+    (if ax mod ay =? 0 then B754_zero sx : f64 else F64.of_me (if sx then - (ax mod ay) else ax mod ay) e sx).
+  destruct (ax mod ay =? 0) eqn:Z0.
+  - apply Z.eqb_eq in Z0. rewrite Z0 in T. cbn [F64.is_finite is_finite B2R Bsign].
+    split; [reflexivity|]. split; [|split; [|reflexivity]].
+    + rewrite T. destruct sx; cbn [cond_Ropp]; ring.
+    + rewrite Rabs_R0, Ay. apply Rmult_lt_0_compat; [apply IZR_lt; lia|exact Hb].
+  - apply Z.eqb_neq in Z0.
+    assert (Pr : 0 < ax mod ay) by lia.
+    assert (R : F64.is_finite (F64.of_me (if sx then - (ax mod ay) else ax mod ay) e sx) = true /\
+                B2R (F64.of_me (if sx then - (ax mod ay) else ax mod ay) e sx)
+                  = cond_Ropp sx (IZR (ax mod ay) * bpow radix2 e) /\
+                Bsign (F64.of_me (if sx then - (ax mod ay) else ax mod ay) e sx) = sx).
+    { destruct (Z.le_ge_cases ex ey) as [L|L].
+      - (* e = ex: bounded by |x| *)
+        apply (fmod_repr sx (ax mod ay) e (B2R x)); try exact Pr.
+        + intros E0. rewrite E0, Rabs_R0 in Ax. assert (0 < IZR ax * b)%R by (apply Rmult_lt_0_compat; [apply IZR_lt; lia|exact Hb]). lra.
+        + rewrite Ax. apply Rmult_le_compat_r; [lra|]. apply IZR_le. apply Z.mod_le; lia.
+        + replace e with ex by (unfold e; lia).
+          pose proof (canonical_bounded 53 1024 sx mx ex Bx) as C. unfold canonical in C. cbn [Fexp] in C.
+          change (B2R x) with (F2R (Float radix2 (cond_Zopp sx (Zpos mx)) ex)). rewrite <- C. apply Z.le_refl.
+        + apply abs_B2R_lt_emax.
+      - (* e = ey: bounded by |y| *)
+        apply (fmod_repr sx (ax mod ay) e (B2R y)); try exact Pr.
+        + intros E0. rewrite E0, Rabs_R0 in Ay. assert (0 < IZR ay * b)%R by (apply Rmult_lt_0_compat; [apply IZR_lt; lia|exact Hb]). lra.
+        + rewrite Ay. fold b. lra.
+        + replace e with ey by (unfold e; lia).
+          pose proof (canonical_bounded 53 1024 sy my ey By) as C. unfold canonical in C. cbn [Fexp] in C.
+          change (B2R y) with (F2R (Float radix2 (cond_Zopp sy (Zpos my)) ey)). rewrite <- C. apply Z.le_refl.
+        + apply abs_B2R_lt_emax. }
+    destruct R as (F & V & S). split; [exact F|]. split; [rewrite V, T; reflexivity|]. split; [|exact S].
+    rewrite V, Ay. fold b. destruct sx; cbn [cond_Ropp]; [rewrite Rabs_Ropp|]; rewrite Rabs_pos_eq; try exact Rlt_y;
+      apply Rmult_le_pos; try lra; apply IZR_le; lia.
+Qed.
+
+Lemma fmod_value x y : F64.is_finite x = true -> F64.is_finite y = true -> B2R y <> 0%R ->
+  F64.is_finite (F64.fmod x y) = true /\
+  B2R (F64.fmod x y) = (B2R x - IZR (Ztrunc (B2R x / B2R y)) * B2R y)%R /\
+  (Rabs (B2R (F64.fmod x y)) < Rabs (B2R y))%R /\
+  Bsign (F64.fmod x y) = Bsign x.
+Proof.
+  intros Fx Fy Ny.
+  destruct y as [sy|sy| |sy my ey By]; try discriminate Fy; [exfalso; apply Ny; reflexivity|].
+  destruct x as [sx|sx| |sx mx ex Bx]; try discriminate Fx.
+  - cbn [F64.fmod F64.is_finite is_finite B2R Bsign]. split; [reflexivity|]. split; [|split; [|reflexivity]].
+    + unfold Rdiv. rewrite Rmult_0_l. rewrite (Ztrunc_IZR 0). ring.
+    + rewrite Rabs_R0. apply Rabs_pos_lt. exact Ny.
+  - apply (fmod_finite sx mx ex Bx sy my ey By).
+Qed.
+
+(* fmin / fmax as floats: the larger (smaller) argument, and the FIRST one when they
+   compare equal -- in particular for +0 and -0 *)
+Lemma fmax_select x y : F64.is_finite x = true -> F64.is_finite y = true ->
+  ((B2R y <= B2R x)%R -> F64.fmax x y = x) /\ ((B2R x < B2R y)%R -> F64.fmax x y = y).
+Proof.
+  intros Fx Fy. unfold F64.fmax, F64.geb. rewrite leb_finite by assumption.
+  replace (F64.is_nan y) with false by (destruct y; try reflexivity; discriminate).
+  rewrite orb_false_r. destruct (Rle_bool_spec (B2R y) (B2R x)); split; intros; try reflexivity; lra.
+Qed.
+Lemma fmin_select x y : F64.is_finite x = true -> F64.is_finite y = true ->
+  ((B2R x <= B2R y)%R -> F64.fmin x y = x) /\ ((B2R y < B2R x)%R -> F64.fmin x y = y).
+Proof.
+  intros Fx Fy. unfold F64.fmin. rewrite leb_finite by assumption.
+  replace (F64.is_nan y) with false by (destruct y; try reflexivity; discriminate).
+  rewrite orb_false_r. destruct (Rle_bool_spec (B2R x) (B2R y)); split; intros; try reflexivity; lra.
+Qed.
+Lemma floor_sign x : F64.is_finite x = true -> Bsign (F64.floor x) = Bsign x.
+Proof.
+  intros Fx. destruct (Bnearbyint_correct 53 1024 prec_lt_emax_53 mode_DN x) as (_ & H2 & H3).
+  apply H3. fold (F64.floor x). destruct (F64.floor x) eqn:E; try reflexivity.
+  unfold F64.floor in E. rewrite E in H2. cbn in H2. unfold F64.is_finite in Fx. congruence.
+Qed.
+
+(* ================================================================== *)
 (* 4c. values and branches                                               *)
 
 Lemma sub_small_finite x y : F64.is_finite x = true -> F64.is_finite y = true ->
@@ -1041,23 +1211,32 @@ Lemma ieee_values x y : F64.is_finite x = true -> F64.is_finite y = true ->
   (F64.is_finite (F64.div x y) = true -> B2R y <> 0%R /\ B2R (F64.div x y) = RN (B2R x / B2R y)) /\
   (F64.ltb x zero = false -> F64.is_finite (F64.sqrt x) = true /\ B2R (F64.sqrt x) = RN (sqrt (B2R x))) /\
   (F64.is_finite (F64.abs x) = true /\ B2R (F64.abs x) = Rabs (B2R x)) /\
-  (F64.is_finite (F64.floor x) = true /\ B2R (F64.floor x) = IZR (Zfloor (B2R x))) /\
-  (F64.is_finite (F64.fmax x y) = true /\ B2R (F64.fmax x y) = Rmax (B2R x) (B2R y)).
+  (F64.is_finite (F64.floor x) = true /\ B2R (F64.floor x) = IZR (Zfloor (B2R x)) /\
+   Bsign (F64.floor x) = Bsign x) /\
+  (F64.is_finite (F64.fmax x y) = true /\ B2R (F64.fmax x y) = Rmax (B2R x) (B2R y) /\
+   ((B2R y <= B2R x)%R -> F64.fmax x y = x) /\ ((B2R x < B2R y)%R -> F64.fmax x y = y)) /\
+  (F64.is_finite (F64.fmin x y) = true /\ B2R (F64.fmin x y) = Rmin (B2R x) (B2R y) /\
+   ((B2R x <= B2R y)%R -> F64.fmin x y = x) /\ ((B2R y < B2R x)%R -> F64.fmin x y = y)) /\
+  (B2R y <> 0%R ->
+     F64.is_finite (F64.fmod x y) = true /\
+     B2R (F64.fmod x y) = (B2R x - IZR (Ztrunc (B2R x / B2R y)) * B2R y)%R /\
+     (Rabs (B2R (F64.fmod x y)) < Rabs (B2R y))%R /\
+     Bsign (F64.fmod x y) = Bsign x) /\
+  (B2R y = 0%R -> F64.is_finite (F64.fmod x y) = false).
 Proof.
-  intros Fx Fy. repeat split.
-  - apply add_value; assumption.
-  - apply sub_value; assumption.
-  - apply mul_value.
-  - apply (div_value x y Fx Fy H).
-  - apply (div_value x y Fx Fy H).
-  - apply finite_sqrt; assumption.
-  - apply sqrt_value.
-  - rewrite finite_abs; exact Fx.
-  - apply abs_value.
-  - rewrite (proj2 (floor_value x)); exact Fx.
-  - apply floor_value.
-  - apply fmax_value; assumption.
-  - apply fmax_value; assumption.
+  intros Fx Fy.
+  split; [intros; apply add_value; assumption|].
+  split; [intros; apply sub_value; assumption|].
+  split; [intros; apply mul_value; assumption|].
+  split; [intros H; apply (div_value x y Fx Fy H)|].
+  split; [intros H; split; [apply finite_sqrt; assumption|apply sqrt_value]|].
+  split; [split; [rewrite finite_abs; exact Fx|apply abs_value]|].
+  split; [split; [rewrite (proj2 (floor_value x)); exact Fx|split; [apply floor_value|apply floor_sign; exact Fx]]|].
+  split; [split; [apply fmax_value; assumption|split; [apply fmax_value; assumption|apply fmax_select; assumption]]|].
+  split; [split; [apply fmin_value; assumption|split; [apply fmin_value; assumption|apply fmin_select; assumption]]|].
+  split; [intros Ny; apply fmod_value; assumption|].
+  intros Zy. destruct (finite_B2R_zero y Fy Zy) as (s & ->).
+  destruct x as [sx|sx| |sx mx ex Bx]; try discriminate Fx; reflexivity.
 Qed.
 
 (* ================================================================== *)
